@@ -185,6 +185,11 @@ func groupRoot(c *fw.Case, withID bool) (*model.Root, string, error) {
 	}
 	if f == nil {
 		o := model.GenOpts{Rows: rows, MinCols: 1, MaxCols: 4, NoCR: true}
+		if rows > 5000 {
+			// null enum keys all hash alike when nulls are not equal to each other: qframe then probes quadratically
+			// (a performance trait, not part of the property); keep nulls to the smaller frames
+			o.NoNull = true
+		}
 		switch rng.Intn(4) {
 		case 0:
 			o.LowCard = 1 + rng.Intn(3)
